@@ -966,7 +966,12 @@ class Stage:
         # plain and per-interval quantities first, then the B-spline signals (variables before parameters)
         arg = self.parameters['']+self.parameters['control']+self.parameters['control+']
         arg += self.variables['']+self.variables['control']+self.variables['control+']
-        arg += self.variables['bspline']+self.parameters['bspline']
+        for s in self.variables['bspline']+self.parameters['bspline']:
+            # Each signal is followed by the derivatives that were requested of it (ocp.der)
+            target = self._signals[s]
+            while target is not None:
+                arg.append(target.symbol)
+                target = target.derivative
         return MX(0, 1) if len(arg)==0 else vvcat(arg)
 
     @property
